@@ -98,6 +98,19 @@ def run_case(ns, mon, case):
             viol.append(V("program:leaf-gradient-differs-from-whole-program-derivative",
                           f"leaf {i}: gradient differs from the FD derivative of the composed function (worst rel {worst:.3g})",
                           leaf=i, index=first, program=prog, leaf_values=[x.tolist() for x in xs] if sum(x.size for x in xs) < 80 else None))
+    # a second sweep over the same graph: every recorded op contributes exactly once per call, so leaf gradients double
+    try:
+        out.backward(ns.Tensor(np.asarray(g, dtype=np.float64)))
+        counters["second_sweeps"] = 1
+        for i, l in enumerate(prog["leaves"]):
+            if l["req"] and ts[i].grad is not None:
+                g2 = np.asarray(ts[i].grad.data, dtype=np.float64)
+                if not np.allclose(g2, 2 * grads[i], rtol=1e-9, atol=1e-9 * max(1.0, float(np.max(np.abs(grads[i]))) if grads[i].size else 1.0)):
+                    viol.append(V("program:second-backward-does-not-double-leaf-gradients", "after a second backward call on the same graph a leaf gradient is not twice the first",
+                                  leaf=i, program=prog))
+                    break
+    except Exception as e:
+        viol.append(V("program:second-backward-raises", f"a second backward call on the same graph raised {type(e).__name__}", error=str(e)[:200], program=prog))
     # construction-order metamorphism
     for k in range(case["orders"]):
         order = programs.random_order(prog, gen.rng_for(case["pseed"], "order", k))
@@ -139,7 +152,7 @@ def teardown(ns, mon):
 
 def finish(agg, tier):
     c = agg["counters"]
-    r = [f"zero-events:{k}" for k in ("fd_coords_checked", "orders_checked", "backward_sweeps", "grad_fn_invocations", "order_pairs_checked") if not c.get(k)]
+    r = [f"zero-events:{k}" for k in ("fd_coords_checked", "orders_checked", "second_sweeps", "backward_sweeps", "grad_fn_invocations", "order_pairs_checked") if not c.get(k)]
     tot = c.get("fd_coords_checked", 0) + c.get("fd_inconclusive", 0)
     if c.get("forward_rejected", 0) > 0.02 * max(1, c.get("programs", 0)):
         r.append(f"too-many-programs-rejected:{c.get('forward_rejected')}/{c.get('programs')}")
